@@ -59,6 +59,53 @@ Qed.
 Lemma link_tag_name : C11_Gen.tagName = "db".
 Proof. reflexivity. Qed.
 
+(* ---- the query entry points: which `strict` literal each XxxCtx method hands to unmarshalRow(s)
+   (arguments of that call, regenerated), and which Ctx form each plain form delegates to.
+   A flipped flag, a swapped unmarshalRow/unmarshalRows or a wrong delegation breaks these lemmas. ---- *)
+Definition flag_str (b : bool) : string := if b then "true" else "false".
+Definition flag_args (r : recv) (m : meth) : list string := ["v"; "rows"; flag_str (strict_flag r m)].
+
+Lemma link_strict_flags_conn :
+  C11_Gen.flag_conn_QueryRow = flag_args RConn MQueryRow /\
+  C11_Gen.flag_conn_QueryRowPartial = flag_args RConn MQueryRowPartial /\
+  C11_Gen.flag_conn_QueryRows = flag_args RConn MQueryRows /\
+  C11_Gen.flag_conn_QueryRowsPartial = flag_args RConn MQueryRowsPartial.
+Proof. repeat split; reflexivity. Qed.
+
+Lemma link_strict_flags_stmt :
+  C11_Gen.flag_stmt_QueryRow = flag_args RStmt MQueryRow /\
+  C11_Gen.flag_stmt_QueryRowPartial = flag_args RStmt MQueryRowPartial /\
+  C11_Gen.flag_stmt_QueryRows = flag_args RStmt MQueryRows /\
+  C11_Gen.flag_stmt_QueryRowsPartial = flag_args RStmt MQueryRowsPartial.
+Proof. repeat split; reflexivity. Qed.
+
+Lemma link_strict_flags_tx :
+  C11_Gen.flag_tx_QueryRow = flag_args RTx MQueryRow /\
+  C11_Gen.flag_tx_QueryRowPartial = flag_args RTx MQueryRowPartial /\
+  C11_Gen.flag_tx_QueryRows = flag_args RTx MQueryRows /\
+  C11_Gen.flag_tx_QueryRowsPartial = flag_args RTx MQueryRowsPartial.
+Proof. repeat split; reflexivity. Qed.
+
+(* gogen looks the flags up in the call of unmarshalRow for single-row methods and of unmarshalRows for
+   multi-row methods (Model.rows_mode); the plain forms only add context.Background() *)
+Definition plain_form (recv_name meth_name : string) : list string :=
+  ["context.Background"; recv_name ++ "." ++ meth_name ++ "Ctx"; "return"].
+
+Lemma link_plain_forms :
+  C11_Gen.plain_conn_QueryRow = plain_form "db" "QueryRow" /\
+  C11_Gen.plain_conn_QueryRowPartial = plain_form "db" "QueryRowPartial" /\
+  C11_Gen.plain_conn_QueryRows = plain_form "db" "QueryRows" /\
+  C11_Gen.plain_conn_QueryRowsPartial = plain_form "db" "QueryRowsPartial" /\
+  C11_Gen.plain_stmt_QueryRow = plain_form "s" "QueryRow" /\
+  C11_Gen.plain_stmt_QueryRowPartial = plain_form "s" "QueryRowPartial" /\
+  C11_Gen.plain_stmt_QueryRows = plain_form "s" "QueryRows" /\
+  C11_Gen.plain_stmt_QueryRowsPartial = plain_form "s" "QueryRowsPartial" /\
+  C11_Gen.plain_tx_QueryRow = plain_form "t" "QueryRow" /\
+  C11_Gen.plain_tx_QueryRowPartial = plain_form "t" "QueryRowPartial" /\
+  C11_Gen.plain_tx_QueryRows = plain_form "t" "QueryRows" /\
+  C11_Gen.plain_tx_QueryRowsPartial = plain_form "t" "QueryRowsPartial".
+Proof. repeat split; reflexivity. Qed.
+
 (* ---- soundness of the executable checkers used by Exec.v ---- *)
 Lemma err_eqb_eq : forall a b, err_eqb a b = true <-> a = b.
 Proof.
@@ -94,6 +141,25 @@ Proof.
   unfold model_ok, spec_ok, transact_ctx. pose proof (tx_refines f b) as HR.
   destruct (transact f b) as [r0 cs0]. simpl in HR. intro H.
   apply andb_true_iff in H as [H _]. apply andb_true_iff in H as [H1 H2].
+  assert (r0 = r).
+  { destruct r0, r; simpl in H1; try discriminate; [apply err_eqb_eq in H1; congruence|reflexivity]. }
+  apply (list_eqb_eq call_eqb call_eqb_eq) in H2. subst. exact HR.
+Qed.
+
+(* a query observed inside Transact that the model reproduces satisfies the transaction clause of spec_ok *)
+Lemma model_ok_orm_tx_implies_tx_clause via m sh cols rows st ds r cs :
+  model_ok (COrm via m sh cols rows st ds (Some (r, cs, false))) = true ->
+  tx_allowed no_faults (body_of_query st) r cs None = true.
+Proof.
+  unfold model_ok. destruct (run_query (rows_mode m) (strict_flag (recv_of via) m) sh cols rows) as [ds0 st0].
+  intro H. apply andb_true_iff in H as [H Ht]. apply andb_true_iff in H as [Hs _].
+  assert (Hb : body_of_query st0 = body_of_query st).
+  { destruct st0 as [[]|n|], st as [[]|n'|]; simpl in Hs; try discriminate; try reflexivity.
+    apply Nat.eqb_eq in Hs. subst. reflexivity. }
+  destruct (in_tx via); [|discriminate]. unfold transact_ctx in Ht. rewrite Hb in Ht.
+  pose proof (tx_refines no_faults (body_of_query st)) as HR.
+  destruct (transact no_faults (body_of_query st)) as [r0 cs0]. simpl in HR.
+  apply andb_true_iff in Ht as [Ht _]. apply andb_true_iff in Ht as [H1 H2].
   assert (r0 = r).
   { destruct r0, r; simpl in H1; try discriminate; [apply err_eqb_eq in H1; congruence|reflexivity]. }
   apply (list_eqb_eq call_eqb call_eqb_eq) in H2. subst. exact HR.
